@@ -176,3 +176,104 @@ func TestC04Bulk(t *testing.T) {
 		})
 	})
 }
+
+// TestC04Birth — the first moments of a Buffer's life (C04): a batch of fresh Buffers, each of which gets a consumer,
+// a few values, reads and a commit in one breath — possibly before its background cleanup goroutine has run for the
+// first time — and then nothing more. After quiescence plus the cooldown every one of them must have freed the
+// consumed prefix (Size equals the consumer's backlog), without any further operation.
+func TestC04Birth(t *testing.T) {
+	st := vkit.For("c04_birth")
+	rapid.Check(t, func(t *rapid.T) {
+		nBuf := rapid.IntRange(5, 40).Draw(t, "buffers")
+		m := rapid.IntRange(1, 5).Draw(t, "values")
+		backlog := rapid.IntRange(0, m-1+1).Draw(t, "backlog") % m
+		cfg := rapid.SampledFrom([]string{"none", "none", "cooldown0", "cooldown1ms", "after"}).Draw(t, "config")
+		closeInstead := rapid.IntRange(0, 3).Draw(t, "closeConsumer") == 0
+		trace := []string{fmt.Sprintf("buffers=%d values=%d backlog=%d config=%s closeConsumerInstead=%v", nBuf, m, backlog, cfg, closeInstead)}
+		vkit.CaseStart(func() string { return strings.Join(trace, " ; ") })
+		var bad string
+		rapid.SyncTest(t, func(t *rapid.T) {
+			ctx := context.Background()
+			var bufs []*bigbuff.Buffer
+			var cons []bigbuff.Consumer
+			want := backlog
+			for i := 0; i < nBuf; i++ {
+				b := new(bigbuff.Buffer)
+				set := func(cd time.Duration) {
+					if err := b.SetCleanerConfig(bigbuff.CleanerConfig{Cleaner: bigbuff.DefaultCleaner, Cooldown: cd}); err != nil {
+						t.Fatalf("harness: %v", err)
+					}
+				}
+				switch cfg {
+				case "cooldown0":
+					set(0)
+				case "cooldown1ms":
+					set(time.Millisecond)
+				}
+				c, err := b.NewConsumer()
+				if err != nil {
+					t.Fatalf("harness: %v", err)
+				}
+				var extra bigbuff.Consumer
+				if closeInstead {
+					// a second consumer that never reads holds everything back until it is closed
+					if extra, err = b.NewConsumer(); err != nil {
+						t.Fatalf("harness: %v", err)
+					}
+				}
+				vals := make([]any, m)
+				for j := range vals {
+					vals[j] = j
+				}
+				if err := b.Put(ctx, vals...); err != nil {
+					t.Fatalf("harness: %v", err)
+				}
+				for j := 0; j < m-backlog; j++ {
+					if v, err := c.Get(ctx); err != nil || v != any(j) {
+						bad = fmt.Sprintf("buffer %d: Get #%d returned (%v,%v)", i, j, v, err)
+						return
+					}
+				}
+				if m-backlog > 0 {
+					if err := c.Commit(); err != nil {
+						bad = fmt.Sprintf("buffer %d: Commit failed: %v", i, err)
+						return
+					}
+				}
+				if extra != nil {
+					if err := extra.Close(); err != nil {
+						bad = fmt.Sprintf("buffer %d: closing the idle consumer failed: %v", i, err)
+						return
+					}
+				}
+				if cfg == "after" {
+					set(time.Millisecond)
+				}
+				bufs, cons = append(bufs, b), append(cons, c)
+			}
+			synctest.Wait()
+			time.Sleep(bigbuff.DefaultCleanerCooldown + 5*time.Millisecond)
+			synctest.Wait()
+			for i, b := range bufs {
+				if sz := b.Size(); sz != want {
+					bad = fmt.Sprintf("buffer %d still holds %d values one cooldown after its last operation; its only open consumer has committed all but %d", i, sz, want)
+					break
+				}
+			}
+			for i, b := range bufs {
+				_ = cons[i].Close()
+				_ = b.Close()
+			}
+			time.Sleep(time.Hour)
+			synctest.Wait()
+		})
+		if bad != "" {
+			sig := "C04/prefix-not-freed"
+			if strings.Contains(bad, "returned (") || strings.Contains(bad, "failed") {
+				sig = "C01+C02/birth-ops"
+			}
+			vkit.Fail(t, sig, "%s\ncase: %v", bad, trace)
+		}
+		st.Case(trace, true, "config:"+cfg)
+	})
+}
